@@ -90,7 +90,8 @@ func (c *Cache[T]) Invalidate(fileName string) {
 func (c *Cache[T]) LoadLatest(
 	fileName string, loader func() (T, error),
 ) (T, error) {
-	stale, lastModified, err := c.IsStale(fileName, c.Entry(fileName))
+	entry := c.Entry(fileName)
+	stale, lastModified, err := c.IsStale(fileName, entry)
 	if err != nil {
 		var zero T
 		return zero, err
@@ -104,8 +105,8 @@ func (c *Cache[T]) LoadLatest(
 		c.Store(fileName, data, lastModified)
 		return data, nil
 	}
-	item, _ := c.entries.Load(fileName)
-	entry := item.(Entry[T])
+	// Use the entry that was found fresh: looking it up again would race
+	// with an invalidation or eviction in between.
 	return entry.Data, nil
 }
 
